@@ -19,6 +19,7 @@ EXPLANATION += ' (R16.4) callback polarity: when a ring finds the queue full (em
 EXPLANATION += ' R16.2 also covers the layer underneath: no zero-copy container / pool operation contains a loop that waits for a slot to come back (shared with C20 R20.6).'
 EXPLANATION += ' (R16.5) between the fullness test answering "no room" and the give-up answer no explicit panic / assertion is reachable in either ring\'s leak_slot_internal; (R16.6) dealloc_id re-enqueues the released slot exactly once on every path, for every payload type (C13 R13.1).'
 EXPLANATION += " (R16.7) C14's unique -> shared conversion rules: the free list is the capacity accounting of the zero-copy channels."
+EXPLANATION += " (R16.8) a dropped listener's leftovers are discarded completely before its id is released (C10 R10.1: they hold pool slots)."
 ASSUMPTIONS = ["lock-freedom, not wait-freedom: a producer that lost the recede CAS to another overshooting producer retries (bounded by the other producers' progress)",
                "the Arc-based Multi channels and the crossbeam setter sends after their fullness test wait by documented design (excluded by the property)"]
 
